@@ -9,7 +9,7 @@
      cycle_ok c: the enabled write addresses of the cycle are pairwise distinct;
      cycle_perm c c': c' presents the same ports with the write ports in another order
      (the order in which the back-end happens to visit its '@' nets). *)
-From PyRTL Require Import Mem.MemDefs Mem.MemProofs.
+From PyRTL Require Import Mem.MemDefs Mem.MemProofs Mem.MemVerilog Mem.MemVerilogProofs.
 From Coq Require Import Permutation.
 
 (* ---- the specification itself ------------------------------------------------ *)
@@ -187,6 +187,38 @@ Theorem C08_refines_array_verilog : forall h h' m A,
 Proof. exact vlog_refines_array. Qed.
 Print Assumptions C08_refines_array_verilog.
 
+(* (v') the exported module under the Verilog semantics IO/VerilogSem.v (the formalisation of
+   the emitted IEEE 1364-2001 subset, C05's specification): for EVERY module of that subset
+   (any expressions, registers, several memories), every memory mm, every stimulus and every
+   run (settled valuation per cycle, clock edge between cycles), memory mm IS the array driven
+   by what its write statements `if (en) mem[a] <= d;` and read assigns `assign x = mem[a];`
+   present in each valuation: the read assigns show the array's words and the contents after
+   the run are the array's. *)
+Theorem C08_verilog_module_memory_is_array : forall m mm stim envs st,
+  NoDup (map fst (m_memwrs m)) -> vtrace m st stim envs ->
+  Forall2 (vreads_show m mm) envs (fst (arr_run (vmems st mm) (vhistory m mm envs)))
+  /\ forall a, vmems (vstate_after m st stim envs) mm a
+               = snd (arr_run (vmems st mm) (vhistory m mm envs)) a.
+Proof. exact vsem_memory_is_array. Qed.
+Print Assumptions C08_verilog_module_memory_is_array.
+
+(* ... in the property's words *)
+Theorem C08_verilog_module_reads_last_written : forall m mm stim envs st,
+  NoDup (map fst (m_memwrs m)) -> vtrace m st stim envs ->
+  Forall cycle_ok (vhistory m mm envs) ->
+  Forall2 (vreads_show m mm) envs (hist_reads (vmems st mm) [] (vhistory m mm envs)).
+Proof. exact vsem_reads_last_written. Qed.
+Print Assumptions C08_verilog_module_reads_last_written.
+
+(* the run the harness evaluates on every exported design (vrun with an untrusted evaluation
+   order, each valuation CHECKED by settledb) is such a run *)
+Theorem C08_verilog_evaluated_run_is_a_trace : forall m order stim st,
+  forallb (fun eo => snd eo) (fst (vrun m order st stim)) = true ->
+  vtrace m st stim (map fst (fst (vrun m order st stim)))
+  /\ snd (vrun m order st stim) = vstate_after m st stim (map fst (fst (vrun m order st stim))).
+Proof. exact vrun_is_trace. Qed.
+Print Assumptions C08_verilog_evaluated_run_is_a_trace.
+
 (* (vi) after synthesize: ports split into 1-bit wires and re-assembled by concat_list /
    data[i] are the same ports, for every address width and data width and every machine *)
 Theorem C08_synth_bits_roundtrip : forall n x, 0 <= x < 2 ^ Z.of_nat n -> rebuild n x = x.
@@ -349,3 +381,19 @@ Example C08_example_rom :
   /\ map (rom_read 2 3 true (RomDict [(3, 7)])) [0; 3] = [RomOk 0; RomOk 7]
   /\ rom_table 2 3 true (RomFun (fun a => Some (a + 1))) = Some [1; 2; 3; 4].
 Proof. vm_compute. repeat split; reflexivity. Qed.
+
+(* a module of the emitted subset: one 4-word x 8-bit memory, a write statement and a read
+   assign; ids 1..5 = we, wa, wd, ra, o *)
+Definition ex_vmod : vmodule :=
+  mkVModule [(1, 1); (2, 2); (3, 8); (4, 2)] [(5, 8)] [] [(6, 8)] [(0, (8, 4))] []
+            [(5, VId 6)] [(6, (0, 4))] RNone [] [] [(0, [mkVW 1 2 3])].
+Definition ex_vins (l : list (Z * Z)) : (Z -> Z) * bool :=
+  (fun x => match assoc l x with Some v => v | None => 0 end, false).
+Definition ex_vstim := [ex_vins [(1, 1); (2, 3); (3, 200); (4, 3)]; ex_vins [(4, 3)]].
+
+Example C08_example_verilog_module :
+  let r := vrun ex_vmod [6; 5] (mkVState (fun _ => 0) (fun _ _ => 7)) ex_vstim in
+  forallb (fun eo => snd eo) (fst r) = true
+  /\ map (fun eo => fst eo 5) (fst r) = [7; 200]
+  /\ NoDup (map fst (m_memwrs ex_vmod)).
+Proof. vm_compute. repeat split; try reflexivity. repeat constructor; simpl; tauto. Qed.
